@@ -138,7 +138,7 @@ def run(ctx):
     for q_ in mod_calls:
         for d_ in (nx.descendants(cg, q_) if q_ in cg else ()):
             a_ = ctx.src.func(d_).node.args
-            if len(a_.args) == 2 and not a_.defaults and d_.startswith("fasta.") and d_.count(".") == 1:
+            if len(a_.args) - len(a_.defaults) == 2 and d_.startswith("fasta.") and d_.count(".") == 1:
                 cands.add(d_)
     if len(cands) > 1:
         cands = {c_ for c_ in cands if c_.rsplit(".", 1)[-1].startswith("_")} or cands      # a private helper, not the public API
@@ -157,7 +157,51 @@ def run(ctx):
     f, v, c = I.call(ca, ["", dict(res)], {})
     ctx.check(I.getattr(f, "atoms") == {} and v == 0 and c == 0, "R2", "average over no codes is the empty molecule",
               f"({_s(I.getattr(f, 'atoms'))}, {v}, {c})", s_ca)
-    ctx.floor("R2", 13)
+    # the averaged entries as the module itself installs them: the module-level statements that follow the amino-acid table
+    # are executed on a generic table of the 20 standard residues; B, Z, J, X and the gap must come out as the plain means
+    # of their members - formula, cell volume *and* charge
+    std = "ACDEFGHIKLMNPQRSTVWY"
+    fm_ = I.global_name("formulas", "formula")
+    Mol_ = I.get_class("fasta.Molecule")
+    gen = {}
+    for c_ in std:
+        f_ = I.call(fm_, [{A["element"]: P(f"n{c_}"), A["H1"]: P(f"h{c_}")}], {})
+        gen[c_] = I.instantiate(Mol_, [c_, f_], {"cell_volume": P(f"W{c_}"), "charge": sp.Symbol(f"y{c_}", real=True)}, name=f"gen{c_}", open_attrs=())
+    saved_tables = I.symconst.get("fasta.CODE_TABLES")
+    I.symconst["fasta.AMINO_ACID_CODES"] = gen
+    I.module_cache.pop(("fasta", "AMINO_ACID_CODES"), None)
+    mod_ = ctx.src.module("fasta")
+    started = False
+    nexec = 0
+    from ptstat.symx import Frame as _Frame
+    for st in mod_.tree.body:
+        if isinstance(st, ast.Assign) and any(isinstance(t_, ast.Name) and t_.id == "AMINO_ACID_CODES" for t_ in st.targets):
+            started = True
+            continue
+        if not started:
+            continue
+        if isinstance(st, ast.Assign):
+            break                                  # the next table: the amino-acid table is complete
+        if isinstance(st, ast.Expr) and isinstance(st.value, ast.Call):
+            I.exec_stmt(st, _Frame(I, "fasta", "fasta"), sp.true)
+            nexec += 1
+    s_tab = "periodictable/fasta.py AMINO_ACID_CODES (averaged entries)"
+    for code, members in (("B", "DN"), ("Z", "EQ"), ("J", "LI"), ("X", std)):
+        if code not in gen:
+            ctx.fail("R2", f"averaged code '{code}' is installed by the module", f"no entry '{code}' after the module's {nexec} statements", s_tab)
+            continue
+        n_ = len(members)
+        e_ = gen[code]
+        eq(ctx, "R2", f"table entry '{code}': charge is the mean charge of {members if n_ < 5 else 'the 20 standard residues'}",
+           I.getattr(e_, "charge"), sum(sp.Symbol(f"y{c_}", real=True) for c_ in members) / n_, s_tab)
+        eq(ctx, "R2", f"table entry '{code}': cell volume is the mean cell volume", I.getattr(e_, "cell_volume"), sum(P(f"W{c_}") for c_ in members) / n_, s_tab)
+        eq(ctx, "R2", f"table entry '{code}': iron count of the formula is the mean", I.getattr(I.getattr(e_, "labile_formula"), "atoms")[A["element"]],
+           sum(P(f"n{c_}") for c_ in members) / n_, s_tab)
+    if "-" in gen:
+        ctx.check(I.getattr(gen["-"], "charge") == 0 and I.getattr(gen["-"], "cell_volume") == 0, "R2", "table entry '-' (gap) is empty", "not empty", s_tab)
+    I.symconst.pop("fasta.AMINO_ACID_CODES", None)
+    I.module_cache.pop(("fasta", "AMINO_ACID_CODES"), None)
+    ctx.floor("R2", 25)
 
     # ---- R3 prefix route -----------------------------------------------------------------------
     fm = I.global_name("formulas", "formula")
